@@ -3,6 +3,7 @@
 
 #include "patternformatter.h"
 
+#include <limits>
 #include <optional>
 
 #include <QSharedPointer>
@@ -754,13 +755,15 @@ public:
 
         // Optional attribute not found: remove characters before (pending removals of a preceding
         // optional attribute count as characters, as they always did) and remember removeAfter
-        if (m_removeBefore > 0 && dest.size() + t_pendingRemove >= m_removeBefore) {
+        if (m_removeBefore > 0 && qint64(dest.size()) + t_pendingRemove >= m_removeBefore) {
             const int fromPending = qMin(m_removeBefore, t_pendingRemove);
             t_pendingRemove -= fromPending;
             dest.chop(m_removeBefore - fromPending);
         }
         if (m_removeAfter > 0) {
-            t_pendingRemove += m_removeAfter;
+            // Saturate instead of overflowing: counts come straight from the pattern text
+            t_pendingRemove = int(qMin<qint64>(qint64(t_pendingRemove) + m_removeAfter,
+                                               std::numeric_limits<int>::max()));
         }
     }
 
